@@ -870,7 +870,11 @@ def _execute(trace, probes, scratch):
     if foreign:
         foreign = dict(foreign)
         foreign.pop('_dropped', None)
-        text, extents = apply_foreign(fmt, text, extents, foreign)
+        try:
+            text, extents = apply_foreign(fmt, text, extents, foreign)
+        except (ValueError, IndexError) as e:
+            # the transforms parse the fault-free output of chython's own writer by the published column layout
+            raise Violation('writer-output-malformed', f'{fmt}: {foreign["kind"]} could not parse the written record: {e!r}')
         probes['foreign:' + foreign['kind']] += 1
         for ri, k in (foreign.get('_dropped') or {}).items():
             # the member the reader has to drop (file order: reactants, products, agents); everything else stays in its role
